@@ -46,6 +46,10 @@ def _nhwc_programs() -> dict[str, dict[str, Any]]:
     add("symbolic_batch", lambda x, y: x * 2 + y, [("B", 4, 4, 3), ("B", 4, 4, 3)])
     add("symbolic_hw_pool_by_shape", lambda x: x - jnp.sum(x, axis=(1, 2), keepdims=True) / (x.shape[1] * x.shape[2]), [("B", "H", "W", 3)])
     add("symbolic_hw_tokens", lambda x: lax.reshape(x, (x.shape[0], x.shape[1] * x.shape[2], 3)).sum(axis=1)[:, None, None, :] + x, [("B", "H", "W", 3)])
+    add("pooled_returned_twice", lambda x: (jnp.mean(x, axis=(1, 2), keepdims=True),) * 2, [S])
+    add("row_pooled_returned_twice", lambda x: (lambda m: (m, m))(jnp.mean(x, axis=1, keepdims=True)), [S])
+    add("pooled_and_captured_by_cond", lambda x: (lambda m: (m, lax.cond(jnp.sum(x) > 0, lambda: m * 2.0, lambda: -m)))(jnp.mean(x, axis=(1, 2), keepdims=True)), [S])
+    add("tanh_returned_twice", lambda x: (lambda t: (t, t, t.sum(axis=(1, 2))))(jnp.tanh(x)), [S])
     add("add_forest", lambda a, b, c: (a + b) + (c + a), [Q, Q, Q])
     add("softmax_channels", lambda x: jax.nn.softmax(x, axis=-1), [S])
     add("concat_channels", lambda x, y: jnp.concatenate([x, y], axis=-1), [S, S])
